@@ -348,11 +348,11 @@ pub enum KeyCommand {
     },
     Expire {
         key: Vec<u8>,
-        seconds: u64,
+        seconds: i64,
     },
     PExpire {
         key: Vec<u8>,
-        milliseconds: u64,
+        milliseconds: i64,
     },
     Ttl {
         key: Vec<u8>,
@@ -1202,13 +1202,24 @@ impl UnifiedCommandExecutor {
             }
             
             KeyCommand::Expire { key, seconds } => {
-                let result = self.storage.expire(db, &key, Duration::from_secs(seconds))?;
+                // a time that is not positive deletes the key at once, as the EXPIRE handler does
+                let result = if seconds <= 0 {
+                    self.storage.delete(db, &key)?
+                } else {
+                    self.storage.expire(db, &key, Duration::from_secs(seconds as u64))?
+                };
                 Ok(RespFrame::Integer(if result { 1 } else { 0 }))
             }
             
             KeyCommand::PExpire { key, milliseconds } => {
-                let result = self.storage.pexpire(db, &key, milliseconds)?;
-                Ok(RespFrame::Integer(if result { 1 } else { 0 }))
+                // the PEXPIRE handler itself (a time that is not positive deletes the key at once)
+                use crate::storage::commands::strings::handle_pexpire;
+                let frames = vec![
+                    RespFrame::from_string("PEXPIRE"),
+                    RespFrame::from_bytes(key),
+                    RespFrame::from_string(milliseconds.to_string()),
+                ];
+                handle_pexpire(&self.storage, db, &frames)
             }
             
             KeyCommand::Ttl { key } => {
@@ -2701,7 +2712,7 @@ impl CommandParser {
             return Err(FerrousError::Command(CommandError::WrongNumberOfArguments("EXPIRE".into())));
         }
         let key = Self::extract_bytes(&frames[1])?;
-        let seconds = Self::extract_string(&frames[2])?.parse::<u64>()
+        let seconds = Self::extract_string(&frames[2])?.parse::<i64>()
             .map_err(|_| FerrousError::Command(CommandError::InvalidIntegerValue))?;
         Ok(KeyCommand::Expire { key, seconds })
     }
@@ -2711,7 +2722,7 @@ impl CommandParser {
             return Err(FerrousError::Command(CommandError::WrongNumberOfArguments("PEXPIRE".into())));
         }
         let key = Self::extract_bytes(&frames[1])?;
-        let milliseconds = Self::extract_string(&frames[2])?.parse::<u64>()
+        let milliseconds = Self::extract_string(&frames[2])?.parse::<i64>()
             .map_err(|_| FerrousError::Command(CommandError::InvalidIntegerValue))?;
         Ok(KeyCommand::PExpire { key, milliseconds })
     }
